@@ -58,7 +58,8 @@ func TestValidateSurvey(t *testing.T) {
 	}
 	docs, agree := 0, 0
 	check := func(s *model.Schema, b *build.Built, d *model.Doc, op string) {
-		text := model.Print(d, nil).Text
+		printed := model.Print(d, nil)
+		text := printed.Text
 		ast, err := parser.Parse(parser.ParseParams{Source: &source.Source{Body: []byte(text)}})
 		if err != nil {
 			note("PARSE-ERROR", op, text, err.Error(), s)
@@ -68,6 +69,7 @@ func TestValidateSurvey(t *testing.T) {
 		want := ref.Validate(s, d)
 		for i, rule := range ref.RuleNames {
 			var msgs []string
+			var locs [][]string // per error: its locations as "line:col"
 			func() {
 				defer func() {
 					if r := recover(); r != nil {
@@ -78,8 +80,41 @@ func TestValidateSurvey(t *testing.T) {
 				res := graphql.ValidateDocument(&b.Schema, ast, []graphql.ValidationRuleFn{graphql.SpecifiedRules[i]})
 				for _, e := range res.Errors {
 					msgs = append(msgs, e.Message)
+					var l []string
+					for _, loc := range e.Locations {
+						l = append(l, fmt.Sprintf("%d:%d", loc.Line, loc.Column))
+					}
+					locs = append(locs, l)
 				}
 			}()
+			if len(msgs) > 0 && len(want[rule]) > 0 && isASCII(text) {
+				// locations: is what the library blames a node the reference finds acceptable?
+				ok := map[string]bool{}
+				for _, v := range want[rule] {
+					for _, n := range v.Nodes {
+						if off, found := printed.Pos[n]; found {
+							l, c := model.LineCol(text, off)
+							ok[fmt.Sprintf("%d:%d", l, c)] = true
+						}
+					}
+				}
+				errsOK := 0
+				for _, l := range locs {
+					for _, x := range l {
+						if ok[x] {
+							errsOK++
+							break
+						}
+					}
+				}
+				detail := fmt.Sprintf("library %v at %v; acceptable %v", msgs, locs, sortedSet(ok))
+				switch {
+				case errsOK == 0:
+					note(rule+" / LOCATION: no library error points at an acceptable node", op, text, detail, s)
+				case errsOK < len(locs):
+					note(rule+" / LOCATION: some (not all) library errors point at an acceptable node", op, text, detail, s)
+				}
+			}
 			switch {
 			case len(msgs) > 0 && len(want[rule]) == 0:
 				note(rule+" / library reports, reference silent", op, text, strings.Join(msgs, " | "), s)
@@ -123,6 +158,24 @@ func TestValidateSurvey(t *testing.T) {
 		sort.Strings(ops)
 		fmt.Printf("\n=== %s  (%d cases)\n    operators: %s\n    example:   %s\n    detail:    %s\n    schema:    %s\n", k, g.count, strings.Join(ops, ", "), g.example, g.detail, g.schema)
 	}
+}
+
+func isASCII(s string) bool {
+	for i := 0; i < len(s); i++ {
+		if s[i] >= 0x80 {
+			return false
+		}
+	}
+	return true
+}
+
+func sortedSet(m map[string]bool) []string {
+	var out []string
+	for k := range m {
+		out = append(out, k)
+	}
+	sort.Strings(out)
+	return out
 }
 
 // schemaSketch prints the definitions of the schema types whose names occur in the text.
